@@ -94,6 +94,9 @@ let () =
         let (rest, calls) = c13_bert_iteration uninit supply in
         Printf.printf "out=%s used=%d\n" (out_calls_bitstream calls) (List.length supply - List.length rest)
       end
+    | ["shape"; inv; hexbytes] ->
+      (* one continuous run of the RRC filter (scale 7168, optionally inverted) over the symbols of these bytes *)
+      Printf.printf "out=%s\n" (hex_of_samples (c13_spec_baseband (inv = "1") (c13_bytes_symbols (bytes_of_hex hexbytes))))
     | ["run"; m; can; src; dest; audio; codec] ->
       (* m = b (bitstream), B (baseband), I (baseband, inverted) *)
       let can = n_of_int (int_of_string can) and src = bytes_of_hex src and dest = bytes_of_hex dest in
